@@ -197,12 +197,14 @@ def run(ctx):
     # ---------------- (c) blob size sequences vs Model/Blob.v
     d = tempfile.mkdtemp(prefix="c12b_", dir=str(common.WORK))
     coq_cases = []
+    seq_cases = []
     try:
         for s in range(ctx.scale(12, 80)):
             path = os.path.join(d, f"b{s}.h5")
             sizes = [ctx.rng.choice([0, 1, 2, 7, 33, 64, 500, 5000, 65536]) for _ in range(ctx.rng.choice([2, 3, 5]))]
             small = all(z <= 64 for z in sizes)
             prev = None
+            seq = []
             for z in sizes:
                 new = bytes(ctx.rng.randrange(256) for _ in range(z))
                 with h5py.File(path, "a") as f:
@@ -215,6 +217,9 @@ def run(ctx):
                                   {"sizes": sizes})
                 if small:
                     coq_cases.append((prev, new, back))
+                    seq.append(new)
+                    # an interruption after this write: the file holds the sequence so far (Model/Blob.v file_after)
+                    seq_cases.append((list(seq), back))
                 prev = new
             # dump_state round trip with real pickles of varying size
             obj = {"a": list(range(ctx.rng.choice([1, 10, 1000]))), "b": "x" * ctx.rng.choice([0, 5, 300])}
@@ -231,8 +236,11 @@ def run(ctx):
     for prev, new, back in coq_cases[:200]:
         o = "None" if prev is None else f"(Some {byte_lit(prev)})"
         rows.append(f"beq (write_blob {o} {byte_lit(new)}) {byte_lit(back)}")
+    for blobs, back in seq_cases[:120]:
+        rows.append("match file_after None [" + "; ".join(byte_lit(b) for b in blobs) + f"] with Some f => beq f {byte_lit(back)} | None => false end")
     t += "Eval vm_compute in (forallb (fun b => b) [" + "; ".join(rows or ["true"]) + "]).\n"
     ok, out = common.coq_eval("C12_blob", t)
     ctx.oblig("correspondence:write_blob-vs-dump_pickle_to_hdf", ok and "= true" in out, out[-1500:])
     ctx.extra["file_faults"] = nfault
     ctx.extra["blob_cases_in_coq"] = len(rows)
+    ctx.extra["blob_sequences_in_coq"] = min(len(seq_cases), 120)
